@@ -45,7 +45,7 @@ def shards(tier, seed):
             for lo in range(1, 256, 16):
                 out.append(dict(grid=g, lo=lo, hi=min(lo + 15, 255),
                                 opts='4', backend='cudd'))
-        for g in ('b4', 'g44', 'n44'):
+        for g in ('b4', 'g44', 'n44', 'pn44'):
             off = (seed * 5 + 1) % 16
             for lo in range(0, 4096, 64):
                 out.append(dict(grid=g, spread=[off, lo, lo + 64],
@@ -55,6 +55,10 @@ def shards(tier, seed):
             for lo in range(1 + seed % 4, 256, 64):
                 out.append(dict(grid=g, lo=lo, hi=min(lo + 15, 255),
                                 opts='2', backend='cudd'))
+        off = (seed * 5 + 1) % 16
+        for lo in range(0, 4096, 1024):
+            out.append(dict(grid='pn44', spread=[off, lo, lo + 32],
+                            opts='2', backend='cudd'))
     # four 0..1 variables: every fourth (thorough: every) predicate whose
     # covering problem has a non-empty cyclic core, care = TRUE
     for lo in range(1, 65536, 1024):
